@@ -180,6 +180,28 @@ func doLife(r scanReq) (res scanRes) {
 		res.Err = err.Error()
 		return
 	}
+	// a value scanned earlier must survive later scans into the SAME destination variable
+	{
+		var dst []byte
+		var first, firstCopy []byte
+		n := 0
+		db.Select(r.Table, func(row sqlittle.Row) {
+			var id int64
+			if e := row.Scan(&id, &dst); e != nil {
+				return
+			}
+			n++
+			if n == 1 {
+				first = dst
+				firstCopy = append([]byte{}, dst...)
+			}
+		}, "id", r.Col)
+		// also scan something shorter into it: the value obtained last must not be overwritten either
+		last := dst
+		lastCopy := append([]byte{}, dst...)
+		sqlittle.Row{[]byte("zz")}.Scan(&dst)
+		life["kept_after_rescan"] = n > 1 && bytes.Equal(first, firstCopy) && bytes.Equal(last, lastCopy)
+	}
 	orig := append([]byte{}, b1...)
 	life["len"] = len(orig)
 	// the caller overwrites the bytes it got
